@@ -233,19 +233,23 @@ theorem C16_total_decidable (t : Tape) (h : wfTapeB t = true) (o : Opts) (enc : 
     (∃ v, toJson o enc .obj t = .ok (some v)) ∧ (∃ r, toJson o enc .val t = .ok r) :=
   C16_total t (wfTapeB_sound t h) o enc
 
-/- FULL STATEMENT (not proved for one shape): the array entry point `value.read_array()?.json()`
-is total too, for every well-formed tape:
-    theorem C16_total_arr (t) (h : WfTape t) (o enc) : ∃ r, toJson o enc .arr t = .ok r
-Proved below except when the first field's value is an OBJECT (`read_array()` then views the
-object's `key [op] value` tokens as a value list, or — flag `mixed` — searches the
-`MixedContainer` token): that shape needs the fields-as-items view of an object, which is
-not built.  The missing case is covered by the correspondence check and the no-panic oracle
-only (`entry:arr` cases, `x-json-all`). -/
-/-- Totality and content of the array entry point when the first value is not an object. -/
-theorem C16_total_arr_partial (t : Tape) (d : Doc) (h : docAt t d = true) (hno : firstIsObject d = false)
-    (o : Opts) (enc : Enc) :
-    toJson o enc .arr t = .ok (firstArrayJson o enc d) :=
-  toJson_arr_doc o enc t d h hno
+/-- Content of the array entry point `value.read_array()?.json()` on the first field's value:
+an array → its items; a header → the two-element view (header as single-entry object, then
+the body again — known finding); an object → its trailing array part if the token is
+flagged `mixed`, otherwise ALL its tokens stepped over as values; a scalar / no field → not
+applicable. -/
+theorem C16_content_array (o : Opts) (enc : Enc) (t : Tape) (d : Doc) (h : docAt t d = true) :
+    toJson o enc .arr t = .ok (firstArrayJsonFull o enc d) :=
+  toJson_arr_doc_full o enc t d h
+
+/-- Totality for all three entry points. -/
+theorem C16_total_all (t : Tape) (h : WfTape t) (o : Opts) (enc : Enc) (entry : Entry) :
+    ∃ r, toJson o enc entry t = .ok r := by
+  obtain ⟨d, hd⟩ := h
+  cases entry with
+  | obj => exact ⟨_, toJson_obj_doc o enc t d hd⟩
+  | arr => exact ⟨_, toJson_arr_doc_full o enc t d hd⟩
+  | val => exact ⟨_, toJson_val_doc o enc t d hd⟩
 
 /-- hypotheses satisfiable: `a={1 b>2} a=x` is a tree, and its Group-mode JSON is
 `{"a":[[1,{"b":{"GREATER_THAN":2}}],"x"]}` -/
